@@ -320,6 +320,19 @@ def rule_scale(ctx):
     ctx.ob('C14.keys', f'{dk.fq}:through-tuning', bool(subs) and through_tuning,
            f'a scale stores indexes into its tuning: degree_to_key must look the pitch up in the tuning (self.tuning[self[i]]), '
            f'not add the index itself ({subs}); otherwise every tuning sounds like 12-tone equal temperament', dk.node, dk.module)
+    # units: tuning values are semitones (Tuning.et: i * 12 / n), so the steps of one octave are 12 per doubling whatever the number of
+    # pitch classes; the chain divides a key by the steps per octave and multiplies by 12 * log2(ratio)
+    tn = ctx.repo.cls('sc3.seq.scale:Tuning')
+    ti = tn.methods['__init__']
+    sp = [x for x in walk_local(ti.node) if isinstance(x, ast.Assign) and norm(x.targets[0]) == 'self._spo']
+    ok = len(sp) == 1 and not any(isinstance(y, ast.Call) and norm(y.func) == 'len' for y in ast.walk(sp[0].value)) and \
+        any(U.is_num(y) and y.value in (12, 12.0) for y in ast.walk(sp[0].value)) and f'log2({ti.params[2]})' in norm(sp[0].value)
+    ctx.ob('C14.keys', f'{ti.fq}:steps-per-octave', ok,
+           f'steps per octave must be 12 * log2(octave ratio) (found `{norm(sp[0]) if sp else None}`): with len(tuning) a 24-tone tuning '
+           f'resolves degree 12 to 63 instead of 66', ti.node, ti.module)
+    et = tn.methods['et']
+    ok = f'ratio = 12 / {et.params[1]}' in full(et.node) and f'tuple((i * ratio for i in range({et.params[1]})))' in full(et.node)
+    ctx.ob('C14.keys', f'{et.fq}:semitone-units', ok, 'equal temperaments are expressed in semitones: step i is i * 12 / n', et.node, et.module)
     ed = ctx.repo.cls('sc3.seq.event:EventDict')
     c = ed.methods['__call__']
     tests = [norm(x.test) for x in walk_local(c.node) if isinstance(x, ast.If) and 'tuple' in norm(x.test)]
@@ -442,6 +455,29 @@ def rule_par(ctx):
     pd = ctx.repo.func('sc3.seq.patterns.filterpatterns:Pdur.__embed__')
     srcd = full(pd.node)
     ok = U.before(srcd, 'inevent = evt.event(stream.next(inevent))', "delta = inevent('delta')")
+    # the last event is cut to the time that remains: `limit - elapsed` reaches the stored delta, and a constructor call of the delta's
+    # own type (kept so that a Rest stays a Rest) is not applied when that type is int, which floors the remainder
+    stores = [x for x in walk_local(pd.node) if isinstance(x, ast.Assign) and isinstance(x.targets[0], ast.Subscript) and U.literal(x.targets[0].slice) == 'delta']
+    rem_ok = False
+    why = 'no store to the delta key'
+    if len(stores) == 1:
+        loc = {}
+        for a in walk_local(pd.node):
+            if isinstance(a, ast.Assign) and isinstance(a.targets[0], ast.Name):
+                loc.setdefault(a.targets[0].id, []).append(a)
+        vnames = {n_.id for n_ in ast.walk(stores[0].value) if isinstance(n_, ast.Name)}
+        exprs = [stores[0].value] + [a.value for v in vnames for a in loc.get(v, [])]
+        has_diff = any(isinstance(y, ast.BinOp) and isinstance(y.op, ast.Sub) and norm(y) == 'local_dur - elapsed' for e in exprs for y in ast.walk(e))
+        casts = [(a if isinstance(a, ast.AST) else None, y) for e, a in [(stores[0].value, stores[0])] + [(a.value, a) for v in vnames for a in loc.get(v, [])]
+                 for y in ast.walk(e) if isinstance(y, ast.Call) and norm(y.func).startswith('type(')]
+        unguarded = [norm(y) for a, y in casts if not any(isinstance(p_, ast.If) and 'int' in norm(p_.test) and 'isinstance' in norm(p_.test)
+                                                         for p_ in U.parent_chain(a))]
+        int_cast = any(isinstance(y, ast.Call) and norm(y.func) in ('int', 'round', 'bi.floor', 'math.floor') for e in exprs for y in ast.walk(e))
+        rem_ok = has_diff and not unguarded and not int_cast
+        why = f'remaining time {"found" if has_diff else "not found"}; unguarded type casts {unguarded}; integer casts {int_cast}'
+    ctx.ob('C14.par', f'{pd.fq}:remaining-not-floored', rem_ok,
+           f'the delta of the cut event must be limit - elapsed as a real number ({why}): type(delta)(remaining) with an int delta floors 0.5 to 0 and '
+           f'Pdur(2.5, ...) lasts 2.0', pd.node, pd.module)
     ctx.ob('C14.par', f'{pd.fq}:as-event', ok, 'Pdur converts the yielded value to an event before calling it for its delta (as Ppar does)', pd.node, pd.module)
 
 
@@ -459,6 +495,11 @@ def run(ctx):
 
 
 MUTANTS = [
+    dict(rule='C14.par', name='Pdur floors the remaining time of an int delta (fix reverted)', file='sc3/seq/patterns/filterpatterns.py',
+         old="                    if not isinstance(delta, int):  # int floors it.\n                        remaining = type(delta)(remaining)\n                    inevent['delta'] = remaining\n",
+         new="                    inevent['delta'] = type(delta)(remaining)\n"),
+    dict(rule='C14.keys', name='steps per octave taken from the tuning length (fix reverted)', file='sc3/seq/scale.py',
+         old="        self._spo = math.log2(octave_ratio) * 12.0", new="        self._spo = math.log2(octave_ratio) * len(tuning)"),
     dict(rule='C14.keys', name='octave offset of the degree path is 4', file='sc3/seq/event.py',
          old="        ret = ret / scale.tuning.spo + self('octave') - 5.0\n        ret = ret * (12.0 * bi.log2(scale.tuning.octave_ratio)) + 60\n        return ret\n\n    def _midinote_from_freq", new="        ret = ret / scale.tuning.spo + self('octave') - 4.0\n        ret = ret * (12.0 * bi.log2(scale.tuning.octave_ratio)) + 60\n        return ret\n\n    def _midinote_from_freq"),
     dict(rule='C14.keys', name='detune multiplied instead of added', file='sc3/seq/event.py',
